@@ -945,9 +945,9 @@ bool apply_model_fault(Model& m, int fault, Rng& rng, bool semantic_only)
     case MF_BAD_NAME: {
         if (semantic_only)
             return false;
-        static const char* bad[] = {"2nd", "Se-en", "Obs erver"};
+        static const char* bad[] = {"2nd", "Se-en", "Obs erver", "clock", "urgent"};
         if (rng.chance(0.25) && !m.templs.empty()) {
-            m.templs[rng.below((uint32_t)m.templs.size())].name = bad[rng.below(3)];
+            m.templs[rng.below((uint32_t)m.templs.size())].name = bad[rng.below(5)];
             return true;
         }
         MTempl* t = pick_templ([](const MTempl& x) {
@@ -962,7 +962,7 @@ bool apply_model_fault(Model& m, int fault, Rng& rng, bool semantic_only)
         for (auto& l : t->locs)
             if (!l.name.empty())
                 named.push_back(&l);
-        named[rng.below((uint32_t)named.size())]->name = bad[rng.below(3)];
+        named[rng.below((uint32_t)named.size())]->name = bad[rng.below(5)];
         return true;
     }
     case MF_NO_INIT: {
